@@ -86,6 +86,12 @@ def run(tier, seed):
     docrun.impl_init()
     for k in range(n):
         g = docgen.Gen(rng, 'c12'); d = g.doc(rng.randint(1, 4))
+        if k % 10 == 5 and not any(st['kind'] == 0 for st in d['stories']):
+            # a running header with text, a defined but empty first-page header (cover page), then the body: an empty story between
+            # two non-empty ones must cost no offset
+            g.uid = d['next_uid'] + 10
+            d['stories'] = [{'kind': 0, 'blocks': g.blocks(1)}, {'kind': 0, 'hf': 'first', 'blocks': []}] + d['stories']
+            d['next_uid'] = g.uid + 1000; d['rpr_table'] = g.table_list()
         b = A.build(d); t0 = docrun.extract(b, False)
         rw = rewrite(rng, t0) if k % 4 else targeted_rewrite(rng, t0)
         if not rw or rw[0] == t0: continue
@@ -112,6 +118,8 @@ def run(tier, seed):
         if fail:
             reg = region(c, r['edits'], t0)
             if not reg and J.bold_led_para(d) and not r['err'] and J.unhead(strip_markers(r['final'])) == J.unhead(strip_markers(tm)): reg = ('D42', 'the "## " prefix of an all-caps bold paragraph is a function of its text: an edit that changes the capitals changes the prefix')
+            if not reg and not r['err'] and c.get('din') and J.emptied_story({'din': c['din'], 'edits': r['edits']}) and J.norm_sep(strip_markers(r['final'])) == J.norm_sep(strip_markers(tm)):
+                reg = ('D56', J.WHAT['D56'])
             f, kn = J.classify(c, fail, placement=True) if not reg else (fail, reg)
             if kn and kn[0] == 'D29b': kn = ('D29', kn[1])
             if kn: ck.known(kn[0], kn[1], case)
@@ -149,5 +157,7 @@ def replay(path):
     docrun.impl_init(); b = A.build(d)
     res = work((b, c['modified'])); print(res.get('edits'), res.get('err'), repr(res.get('final')))
     bad = res['err'] or res['r']['sk'] or strip_markers(res['final']) != strip_markers(c['modified'])
-    if bad and not region({}, res['edits'], c['text']): print('VIOLATION property=C12 replay=%s' % path); return 1
+    din = A.read(b, table=list(d['rpr_table']))
+    d56 = bad and not res['err'] and J.emptied_story({'din': din, 'edits': res['edits']}) and J.norm_sep(strip_markers(res['final'])) == J.norm_sep(strip_markers(c['modified']))
+    if bad and not d56 and not region({'din': din}, res['edits'], c['text']): print('VIOLATION property=C12 replay=%s' % path); return 1
     print('property holds on this input (or lies in a recorded region)'); return 0
